@@ -897,3 +897,16 @@ func WithScratch(vals []int) int {
 	scratchPool.Put(s)
 	return sum
 }
+
+// Stamped / StampAll violate RX.LC: the stamp is made on the loop's copy.
+type Stamped struct {
+	Name string
+	Page int
+}
+
+func StampAll(items []Stamped, page int) []Stamped {
+	for _, it := range items {
+		it.Page = page
+	}
+	return items
+}
